@@ -45,12 +45,23 @@ class World_:
     pass
 
 
-def make_world(eng, lang, nvars=2, with_nested=True, projected=False, bounded=False):
+def make_world(eng, lang, nvars=2, with_nested=True, projected=False, bounded=False, plain=False, functional=False):
     w = World_()
+    if plain:
+        # units that never look at the scope: one fixed world instead of the symbolic one
+        class _Fixed:
+            def fresh_bool(self, hint='b'):
+                return False
+
+            def fresh_int(self, lo, hi, hint='i'):
+                return lo
+        weng, eng = eng, _Fixed()
+    else:
+        weng = eng
     g = Generator(language=lang)
     g.context = Context()
     f = g.bt_factory
-    w.g, w.f, w.lang, w.eng = g, f, lang, eng
+    w.g, w.f, w.lang, w.eng = g, f, lang, weng
     INT, STR = f.get_integer_type(), f.get_string_type()
     w.INT, w.STR = INT, STR
     fa_final = bool(eng.fresh_bool('field_fa_final'))
@@ -131,6 +142,26 @@ def make_world(eng, lang, nvars=2, with_nested=True, projected=False, bounded=Fa
         vp = ast.VariableDeclaration('vp', ast.BottomConstant(pt), is_final=bool(eng.fresh_bool('final_vp')), var_type=pt)
         g.context.add_var(G + ('ff',), 'vp', vp)
         w.decls['vp'] = (G + ('ff',), vp)
+    if functional:
+        # function-typed locals and a class with a function-typed field (targets of calls through references)
+        F1 = f.get_function_type(1)
+        w.sigs = dict(fr=F1.new([INT, B.get_type()]), fs=F1.new([A.get_type(), INT]),
+                      ffn=F1.new([tp.WildCardType(A.get_type(), tp.Contravariant), A.get_type()]))
+        for name in ('fr', 'fs'):
+            v = ast.VariableDeclaration(name, ast.BottomConstant(w.sigs[name]), is_final=bool(eng.fresh_bool('final_' + name)),
+                                        var_type=w.sigs[name])
+            ns = G + ('ff',) if name == 'fr' or not bool(eng.fresh_bool('fs_is_global')) else G
+            g.context.add_var(ns, name, v)
+            w.decls[name] = (ns, v)
+        Ff = ast.ClassDeclaration('Ff', [], ast.ClassDeclaration.REGULAR,
+                                  fields=[ast.FieldDeclaration('ffn', w.sigs['ffn'], is_final=True)], functions=[], is_final=True)
+        w.classes['Ff'] = Ff
+        g.context.add_class(G, 'Ff', Ff)
+        g.context.add_var(G + ('Ff',), 'ffn', Ff.fields[0])
+        vf = ast.VariableDeclaration('vf', ast.BottomConstant(Ff.get_type()), is_final=bool(eng.fresh_bool('final_vf')),
+                                     var_type=Ff.get_type())
+        g.context.add_var(G + ('ff',), 'vf', vf)
+        w.decls['vf'] = (G + ('ff',), vf)
     for i in range(nvars):
         var('v%d' % i, G + ('ff',))
     g.namespace = G + ('ff',)
@@ -207,7 +238,7 @@ def run_unit(eng, lang, unit, **kw):
     sym_draws = kw.pop('sym_draws', None)
     cfgkw = dict(limits__max_depth=max_depth, limits__max_var_decls=3)
     w = make_world(eng, lang, nvars=kw.pop('nvars', 2), with_nested=kw.pop('with_nested', True),
-                   projected=kw.pop('projected', False), bounded=kw.pop('bounded', False))
+                   projected=kw.pop('projected', False), bounded=kw.pop('bounded', False), plain=kw.pop('plain', False), functional=kw.pop('functional', False))
     depth0 = int(eng.fresh_int(1, 2 * max_depth + 2, 'depth')) if sym_depth else 1
     w.g.depth = depth0
     etype_i = int(eng.fresh_int(0, len(w.pool) - 1, 'etype'))
@@ -237,7 +268,7 @@ def run_unit(eng, lang, unit, **kw):
     if res is not None:       # (None: the unit wanted to create a declaration and the harness cut the path)
         out.append(('C18', Ob('depth-restored|%s' % unit, w.g.depth == depth0, dict(case, depth_after=w.g.depth))))
     slack = [r for r in w.requests if not (r['depth'] > depth0 or r['exclude_var'] or r['gen_bottom'])]
-    if unit in ('gen_func_call', 'gen_field_access'):
+    if unit in ('gen_func_call', 'gen_field_access', 'gen_func_call_ref', 'gen_func_ref'):
         # the receiver of a call / field access is requested at the entry depth: this edge of the recursion is NOT
         # covered by the measure (the generator's own comments note that a recursion error may occur there)
         slack = [r for r in slack if not (r['type'] is not None and getattr(r['type'], 'name', None) in w.classes)]
@@ -245,7 +276,7 @@ def run_unit(eng, lang, unit, **kw):
         # the assigned value is requested at the entry depth, but for a non-void type: the dispatcher selects
         # gen_assignment for the void type only, every other generator deepens
         slack = [r for r in slack if r['type'] is None or r['type'] == w.f.get_void_type()]
-    if unit not in ('generate_expr', 'gen_variable_decl', 'select_superclass', 'gen_lambda', 'gen_is_expr', 'gen_matching_func', 'gen_class_decl') and res is not None:
+    if unit not in ('generate_expr', 'gen_variable_decl', 'select_superclass', 'gen_lambda', 'gen_is_expr', 'gen_matching_func', 'gen_class_decl', 'gen_array_expr', 'gen_func_ref') and res is not None:
         out.append(('C18', Ob('recursion-progress|%s' % unit, not slack,
                               dict(case, requests_at_entry_depth=[str(r['type']) for r in slack][:3]))))
     if unit == 'gen_new' and depth0 + 1 > 2 * max_depth:
@@ -775,6 +806,208 @@ def c_gen_class_decl(w, etype, subtype, res, case):
     return out
 
 
+# ------------------------------------------------------------------ operator and array expressions
+def u_gen_equality_expr(w, etype, subtype):
+    return w.g.gen_equality_expr(only_leaves=True)
+
+
+def _operands(w, res, case, unit, klass, out):
+    ok = isinstance(res, klass) and isinstance(res.lexpr, Hole) and isinstance(res.rexpr, Hole)
+    out.append(('C05', Ob('%s|returns-binary-expression-over-two-requests' % unit, ok, case)))
+    if not ok:
+        return None
+    out.append(('C01', Ob('%s|operator-valid-for-language' % unit,
+                          res.operator in klass.VALID_OPERATORS[w.lang], dict(case, operator=str(res.operator)))))
+    return res.lexpr, res.rexpr
+
+
+def c_gen_equality_expr(w, etype, subtype, res, case):
+    out = []
+    ops = _operands(w, res, case, 'gen_equality_expr', ast.EqualityExpr, out)
+    if ops is None:
+        return out
+    l, r = ops
+    case = dict(case, left=str(l.t), right=str(r.t))
+    # both operands are requested with one and the same exact type (javac rejects == on unrelated types)
+    out.append(('C01', Ob('gen_equality_expr|operands-of-one-exact-type',
+                          l.t is not None and w.ref.snap(l.t) == w.ref.snap(r.t) and not l.req['subtype'] and not r.req['subtype'], case)))
+    out.append(('C05', Ob('gen_equality_expr|operand-type-usable', l.t is not None and not l.t.is_type_constructor(), case)))
+    if w.lang == 'java':
+        out.append(('C01', Ob('gen_equality_expr|java-no-function-typed-operands',
+                              not (hasattr(l.t, 'name') and str(l.t.name).startswith('Function')), case)))
+    return out
+
+
+def u_gen_logical_expr(w, etype, subtype):
+    return w.g.gen_logical_expr(only_leaves=True)
+
+
+def c_gen_logical_expr(w, etype, subtype, res, case):
+    out = []
+    ops = _operands(w, res, case, 'gen_logical_expr', ast.LogicalExpr, out)
+    if ops is None:
+        return out
+    b = w.f.get_boolean_type()
+    out.append(('C01', Ob('gen_logical_expr|boolean-operands', all(o.t == b for o in ops),
+                          dict(case, left=str(ops[0].t), right=str(ops[1].t)))))
+    return out
+
+
+def u_gen_comparison_expr(w, etype, subtype):
+    return w.g.gen_comparison_expr(only_leaves=True)
+
+
+def c_gen_comparison_expr(w, etype, subtype, res, case):
+    out = []
+    f = w.f
+    klass = ast.EqualityExpr if isinstance(res, ast.EqualityExpr) else ast.ComparisonExpr
+    ops = _operands(w, res, case, 'gen_comparison_expr', klass, out)
+    if ops is None:
+        return out
+    l, r = ops
+    case = dict(case, left=str(l.t), right=str(r.t), operator=str(res.operator))
+    numbers = list(f.get_number_types())
+    same = lambda t: (l.t == t and r.t == t)        # noqa: E731
+    ok = (l.t in numbers and r.t in numbers) or same(f.get_string_type()) or same(f.get_boolean_type()) or same(f.get_char_type())
+    out.append(('C01', Ob('gen_comparison_expr|comparable-operand-types', ok, case)))
+    if w.lang == 'java' and (l.t == f.get_string_type() or l.t == f.get_boolean_type()):
+        # java has no < on String / Boolean: the generator must fall back to an equality test
+        out.append(('C01', Ob('gen_comparison_expr|java-no-ordering-on-string-or-boolean', klass is ast.EqualityExpr, case)))
+    return out
+
+
+def u_gen_array_expr(w, etype, subtype):
+    w.array_type = w.f.get_array_type().new([etype])
+    return w.g.gen_array_expr(w.array_type, only_leaves=True, subtype=subtype)
+
+
+def c_gen_array_expr(w, etype, subtype, res, case):
+    out = []
+    ok = isinstance(res, ast.ArrayExpr)
+    out.append(('C05', Ob('gen_array_expr|returns-array-expression', ok, case)))
+    if not ok:
+        return out
+    case = dict(case, array_type=str(res.array_type), length=res.length, elements=[str(getattr(e, 't', e)) for e in res.exprs][:4])
+    out.append(('C01', Ob('gen_array_expr|length-matches-elements', res.length == len(res.exprs), case)))
+    out.append(('C01', Ob('gen_array_expr|array-type-is-the-expected-one-without-projections',
+                          res.array_type == w.array_type.to_variance_free() and not res.array_type.has_wildcards(), case)))
+    for e in res.exprs:
+        good = isinstance(e, Hole) and e.t is not None and w.ref.snap(e.t) == w.ref.snap(etype) and (e.req['subtype'] == subtype)
+        out.append(('C01', Ob('gen_array_expr|element-requested-with-the-element-type', good, case)))
+    return out
+
+
+# ------------------------------------------------------------------ calls through function references, function references
+def u_gen_func_call_ref(w, etype, subtype):
+    return w.g._gen_func_call_ref(etype, only_leaves=True, subtype=subtype)
+
+
+def c_gen_func_call_ref(w, etype, subtype, res, case):
+    out = []
+    if res is None:
+        # no reference offers the type: only legitimate when indeed none of the visible ones does
+        offers = []
+        for name in ('fr', 'fs'):
+            r = resolve(w, name, w.g.namespace)
+            if r is None:
+                continue
+            ret = r[1].get_type().type_args[-1]
+            if (assignable(w, ret, etype) if subtype else w.ref.snap(ret) == w.ref.snap(etype)):
+                if not (w.g._inside_java_lambda and r[0] != tuple(w.g.namespace) and not r[1].is_final):
+                    offers.append(name)
+        out.append(('C05', Ob('gen_func_call_ref|none-only-when-no-reference-fits', not offers, dict(case, fitting=offers))))
+        return out
+    ok = isinstance(res, ast.FunctionCall) and res.is_ref_call
+    out.append(('C05', Ob('gen_func_call_ref|returns-call-through-reference', ok, case)))
+    if not ok:
+        return out
+    case = dict(case, callee=res.func, receiver=str(res.receiver))
+    if res.receiver is None:
+        r = resolve(w, res.func, w.g.namespace)
+        out.append(('C05', Ob('gen_func_call_ref|reference-resolves', r is not None, case)))
+        if r is None:
+            return out
+        ns, d = r
+        sig = d.get_type()
+        if w.g._inside_java_lambda and ns != tuple(w.g.namespace):
+            out.append(('C05', Ob('gen_func_call_ref|java-lambda-captures-final-only', bool(getattr(d, 'is_final', False)), case)))
+    else:
+        rt = _receiver_type(w, res.receiver, out, case, 'gen_func_call_ref')
+        if rt is None:
+            return out
+        cls = w.classes.get(getattr(rt, 'name', None))
+        fld = {x.name: x for x in inherited(w, cls, 'fields')}.get(res.func) if cls is not None else None
+        out.append(('C05', Ob('gen_func_call_ref|field-of-receiver', fld is not None, dict(case, receiver_type=str(rt)))))
+        if fld is None:
+            return out
+        sig = fld.get_type()
+    is_fun = getattr(sig, 'is_function_type', lambda: False)()
+    out.append(('C01', Ob('gen_func_call_ref|callee-has-function-type', is_fun, dict(case, callee_type=str(sig)))))
+    if not is_fun:
+        return out
+    ret = sig.type_args[-1]
+    fits = assignable(w, ret, etype) if subtype else w.ref.snap(ret) == w.ref.snap(etype)
+    out.append(('C01', Ob('gen_func_call_ref|result-type-fits|subtype=%d' % subtype, fits, dict(case, result_type=str(ret)))))
+    out.append(('C05', Ob('gen_func_call_ref|one-argument-per-parameter', len(res.args) == len(sig.type_args) - 1, case)))
+    for a, pt in zip(res.args, sig.type_args[:-1]):
+        e = a.expr
+        projected = pt.is_wildcard() or (pt.is_parameterized() and pt.has_wildcards())
+        if isinstance(e, Hole):
+            if projected:
+                out.append(('C01', Ob('gen_func_call_ref|bottom-for-projected-parameter', e.req['gen_bottom'], dict(case, parameter=str(pt)))))
+            else:
+                out.append(('C01', Ob('gen_func_call_ref|argument-fits-parameter', e.t is not None and assignable(w, e.t, pt),
+                                      dict(case, parameter=str(pt), argument=str(e.t)))))
+    return out
+
+
+def u_gen_func_ref(w, etype, subtype):
+    _no_new_decls(w)
+    F = w.f.get_function_type
+    A, B, INT = w.classes['Aa'].get_type(), w.classes['Bb'].get_type(), w.INT
+    sigs = [F(1).new([INT, INT]), F(2).new([A, INT, B]), F(1).new([INT, B]), F(1).new([A, INT]), F(1).new([B, INT]), F(0).new([w.STR])]
+    w.sig = sigs[w.pool.index(etype) % len(sigs)]
+    try:
+        return w.g._gen_func_ref(w.sig, only_leaves=True)
+    except WouldGenerate:
+        return None
+
+
+def c_gen_func_ref(w, etype, subtype, res, case):
+    out = []
+    case = dict(case, signature=str(w.sig))
+    if res is None:
+        return out
+    ok = isinstance(res, ast.FunctionReference)
+    out.append(('C05', Ob('gen_func_ref|returns-function-reference', ok, case)))
+    if not ok:
+        return out
+    case = dict(case, func=res.func, receiver=str(res.receiver))
+    if res.receiver is None:
+        fn = w.g.context.get_funcs(w.g.namespace).get(res.func)
+        out.append(('C05', Ob('gen_func_ref|function-visible', fn is not None, case)))
+        m = {}
+    else:
+        rt = _receiver_type(w, res.receiver, out, case, 'gen_func_ref')
+        if rt is None:
+            return out
+        cls = w.classes.get(getattr(rt, 'name', None))
+        fn = {x.name: x for x in inherited(w, cls, 'functions')}.get(res.func) if cls is not None else None
+        out.append(('C05', Ob('gen_func_ref|method-of-receiver', fn is not None, dict(case, receiver_type=str(rt)))))
+        m = {p: a for p, a in zip(cls.type_parameters, getattr(rt, 'type_args', []))} if cls is not None else {}
+    if fn is None:
+        return out
+    out.append(('C05', Ob('gen_func_ref|not-the-enclosing-function', fn.name != w.g.namespace[-1], case)))
+    if fn.type_parameters:
+        return out          # a parameterized function is instantiated by the expected signature (unification, C10)
+    have = [tp.substitute_type(p.get_type(), m) for p in fn.params] + [tp.substitute_type(fn.get_type(), m)]
+    want = list(w.sig.type_args)
+    same = len(have) == len(want) and all(w.ref.snap(a) == w.ref.snap(b) for a, b in zip(have, want))
+    out.append(('C01', Ob('gen_func_ref|signature-equals-the-expected-one', same,
+                          dict(case, declared=[str(x) for x in have], expected=[str(x) for x in want]))))
+    return out
+
+
 def u_select_superclass(w, etype, subtype):
     g = w.g
     g.namespace = G + ('Newcls',)
@@ -813,15 +1046,22 @@ def c_select_superclass(w, etype, subtype, res, case):
     return out
 
 
-UNITS = dict(gen_variable=u_gen_variable, gen_assignment=u_gen_assignment, gen_conditional=u_gen_conditional,
+UNITS = dict(gen_func_call_ref=u_gen_func_call_ref, gen_func_ref=u_gen_func_ref, gen_equality_expr=u_gen_equality_expr, gen_logical_expr=u_gen_logical_expr,
+             gen_comparison_expr=u_gen_comparison_expr, gen_array_expr=u_gen_array_expr, gen_variable=u_gen_variable, gen_assignment=u_gen_assignment, gen_conditional=u_gen_conditional,
              gen_new=u_gen_new, gen_variable_decl=u_gen_variable_decl, generate_expr=u_generate_expr,
              gen_field_access=u_gen_field_access, gen_func_call=u_gen_func_call, select_superclass=u_select_superclass, gen_lambda=u_gen_lambda,
              gen_is_expr=u_gen_is_expr, gen_matching_func=u_gen_matching_func, gen_class_decl=u_gen_class_decl)
-CHECKS = dict(gen_variable=c_gen_variable, gen_assignment=c_gen_assignment, gen_conditional=c_gen_conditional,
+CHECKS = dict(gen_func_call_ref=c_gen_func_call_ref, gen_func_ref=c_gen_func_ref, gen_equality_expr=c_gen_equality_expr, gen_logical_expr=c_gen_logical_expr,
+              gen_comparison_expr=c_gen_comparison_expr, gen_array_expr=c_gen_array_expr, gen_variable=c_gen_variable, gen_assignment=c_gen_assignment, gen_conditional=c_gen_conditional,
               gen_new=c_gen_new, gen_variable_decl=c_gen_variable_decl, generate_expr=c_generate_expr,
               gen_field_access=c_gen_field_access, gen_func_call=c_gen_func_call, select_superclass=c_select_superclass, gen_lambda=c_gen_lambda,
               gen_is_expr=c_gen_is_expr, gen_matching_func=c_gen_matching_func, gen_class_decl=c_gen_class_decl)
-FUNCS = dict(gen_variable=[Generator.gen_variable], gen_assignment=[Generator.gen_assignment, Generator._get_assignable_vars,
+FUNCS = dict(gen_func_call_ref=[Generator._gen_func_call_ref, Generator._get_matching_objects],
+             gen_func_ref=[Generator._gen_func_ref, Generator._get_matching_function_declarations, Generator._is_sigtype_compatible,
+                           Generator._get_matching_class],
+             gen_equality_expr=[Generator.gen_equality_expr, Generator.select_type], gen_logical_expr=[Generator.gen_logical_expr],
+             gen_comparison_expr=[Generator.gen_comparison_expr], gen_array_expr=[Generator.gen_array_expr],
+             gen_variable=[Generator.gen_variable], gen_assignment=[Generator.gen_assignment, Generator._get_assignable_vars,
                                                                      Generator._get_classes_with_assignable_fields],
              gen_conditional=[Generator.gen_conditional], gen_new=[Generator.gen_new, Generator._get_subclass],
              gen_variable_decl=[Generator.gen_variable_decl], generate_expr=[Generator.generate_expr, Generator.get_generators],
@@ -848,6 +1088,43 @@ STUBS = ['src.utils.random -> symbolic RNG (every outcome of every draw)',
          'Generator built-in pools reduced to {Int, String, void}, no function types',
          'for the dispatcher unit: every gen_* sub-generator -> recorder returning a hole']
 OUT = ('composition of the unit contracts into whole-program well-typedness (structural induction on the generated tree, '
-       'paper argument); Context bookkeeping across units; gen_lambda / function references / gen_is_expr / gen_class_decl / '
-       'array, equality, comparison and logical generators (units not built); paths on which gen_field_access / _gen_func_call '
-       'would create a new class or function give no verdict; worlds beyond the one described; termination of the real recursion')
+       'paper argument); Context bookkeeping across units; function references (_gen_func_ref / _gen_func_call_ref), '
+       'gen_func_decl bodies and gen_class_decl members beyond the bookkeeping unit (units not built); paths on which '
+       'gen_field_access / _gen_func_call would create a new class or function give no verdict; worlds beyond the ones '
+       'described; termination of the real recursion')
+
+
+SCOPE_FREE = ('gen_equality_expr', 'gen_logical_expr', 'gen_comparison_expr', 'gen_array_expr')
+CHEAP = ('gen_field_access', 'gen_lambda', 'gen_matching_func', 'gen_class_decl', 'select_superclass', 'gen_logical_expr',
+         'gen_array_expr', 'gen_func_call_ref', 'gen_func_ref')
+
+
+def unit_params(unit, tier, measure=False):
+    """world and RNG bounds of one unit job.  The thorough tier runs the same worlds for all four languages and makes two
+    more draws symbolic for the units whose quick job is small (measured: the other units do not finish in an hour with
+    deeper bounds).  measure=True: the variant used by C18 (smaller scope, symbolic depth counter)."""
+    deeper = 2 if (tier != 'quick' and unit in CHEAP) else 0
+    if unit in SCOPE_FREE:
+        prm = dict(nvars=0, with_nested=False, plain=True, sym_draws=4 + deeper)
+    elif unit in ('generate_expr', 'gen_lambda', 'gen_matching_func', 'gen_class_decl', 'select_superclass'):
+        prm = dict(nvars=0, with_nested=False, sym_draws=4 + deeper)
+    elif unit == 'gen_func_call':
+        prm = dict(nvars=0, with_nested=not measure, sym_draws=3)
+    elif unit == 'gen_field_access':
+        prm = dict(nvars=0, with_nested=not measure, sym_draws=4 + deeper)
+    elif unit in ('gen_func_call_ref', 'gen_func_ref'):
+        prm = dict(nvars=0, with_nested=False, functional=(unit == 'gen_func_call_ref'),
+                   sym_draws=(3 if unit == 'gen_func_call_ref' else 2) + deeper)
+    else:
+        prm = dict(nvars=1, with_nested=not measure, sym_draws=4)
+    return prm
+
+
+def unit_bounds(prm):
+    return ('scope: top-level variable%s of symbolic type (6 pool types) and finality%s%s; expected type (6) and subtype flag '
+            'symbolic; every RNG outcome of the first %d draws, later draws take the first element'
+            % (' + %d local variable(s)' % prm['nvars'] if prm.get('nvars') else '',
+               ', optional nested function scope (java: lambda capture flag symbolic)' if prm.get('with_nested') else '',
+               ' -- fixed for this unit, which never looks at the scope' if prm.get('plain') else
+               (', function-typed locals fr, fs and a class with a function-typed field' if prm.get('functional') else ''),
+               prm['sym_draws']))
